@@ -778,6 +778,66 @@ fn first_diff(a: &[String], b: &[String]) -> String {
     format!("lengths {} vs {}", a.len(), b.len())
 }
 
+/// Every property is stated for the byte, UTF-8 and runtime-typed families alike ("in every encoding", "every Unix path
+/// buffer"): after a property's own oracle, the transcript LINES that belong to that property's operations are compared
+/// between the four families (bytes, UTF-8, typed, UTF-8 typed), borrowed and owned, on a slice of the property's own
+/// domains.  A copy of an operation that stops agreeing with the byte family is then reported by the check of the property
+/// the operation belongs to (not only by C14 / C15, which compare every line).
+pub fn families_agree(ctx: &mut Ctx, prop: &str, tier: &str, seed: u64) {
+    let labels: &[&str] = match prop {
+        "C01" => &["components", "components-rev", "components-alt", "iter", "iter-rev", "iter-alt", "has_root", "is_absolute", "is_relative", "partial-iters", "iter-states"],
+        "C02" => &["components", "components-rev", "components-alt", "wq", "wq-kinds", "wq-partial", "has_root", "is_absolute", "is_relative"],
+        "C03" => &["components", "components-rev", "components-alt", "iter", "iter-rev", "iter-alt", "partial-iters", "iter-states"],
+        "C04" => &["push_checked", "join_checked"],
+        "C06" => &["parent", "ancestors", "file_name", "file_stem", "extension", "starts_with", "ends_with", "strip_prefix", "iter-ord"],
+        "C07" => &["push", "pop", "set_file_name", "join", "with_file_name", "clear-push", "sequence"],
+        "C08" => &["push", "join", "clear-push", "sequence"],
+        "C09" => &["parent", "ancestors", "pop"],
+        "C10" => &["starts_with", "ends_with", "strip_prefix", "join"],
+        "C11" => &["normalize"],
+        "C12" => &["file_name", "file_stem", "extension", "set_file_name", "with_file_name"],
+        "C13" => &["set_extension", "with_extension"],
+        "C16" => &["to-unix", "to-windows"],
+        _ => return,
+    };
+    let (unix_ok, win_ok) = (!matches!(prop, "C02" | "C08"), !matches!(prop, "C01" | "C06" | "C07"));
+    let t = tier_is_thorough(tier);
+    let keep = |v: Vec<String>| -> Vec<String> {
+        no_x(&no_y(v)).into_iter().filter(|l| {
+            let k = l.split(' ').next().unwrap_or("");
+            let k = k.strip_prefix("buf.").unwrap_or(k);
+            labels.contains(&k) || l == "PANIC"
+        }).collect()
+    };
+    let args: Vec<&str> = vec!["", "a", "..", "b.c", "/x", "\u{e9}", "..\\\u{e9}", "C:d"];
+    for win in [false, true] {
+        if (win && !win_ok) || (!win && !unix_ok) {
+            continue;
+        }
+        let mut dom: Vec<Vec<u8>> = if win { dom_win_small(tier, seed) } else { dom_unix_small(tier, seed) };
+        dom.extend(gen::utf8_dom(tier, seed).into_iter().step_by(if t { 11 } else { 9 }));
+        let dom: Vec<Vec<u8>> = dedup_keep_order(dom).into_iter().filter(|x| std::str::from_utf8(x).is_ok() && x.len() <= 300).collect();
+        let step = if t { 1 } else { (dom.len() / 1500).max(1) };
+        for (i, s) in dom.iter().enumerate().step_by(step) {
+            let st = std::str::from_utf8(s).unwrap();
+            for (j, a) in args.iter().enumerate() {
+                if !t && (i / step + j) % 4 != 0 {
+                    continue;
+                }
+                crate::util::at(format!("comps {} {}", gen::e(win), hex(s)));
+                ctx.evals += 1;
+                let tb = keep(t_bytes(win, s, a.as_bytes()));
+                for (who, other) in [("UTF-8", keep(t_utf8(win, st, a))), ("typed", keep(t_typed(win, s, a.as_bytes()))), ("UTF-8 typed", keep(t_typed8(win, st, a)))] {
+                    if other != tb {
+                        ctx.fail("families-agree", None, format!("comps {} {}", gen::e(win), hex(s)), format!("{} family, arg \"{}\": {}", who, a, first_diff(&tb, &other)));
+                        break;
+                    }
+                }
+            }
+        }
+    }
+}
+
 pub fn c14(ctx: &mut Ctx, tier: &str, seed: u64) {
     let t = tier_is_thorough(tier);
     let dom = gen::utf8_dom(tier, seed);
